@@ -253,7 +253,8 @@ def run_flonums(rep, b, rng, tier, env):
             if vn != want:
                 err = "n/a" if vn in (None, "nan") or isnan else ulp_distance(vn, bits)
                 rep.violation({"check": "R", "kind": "flonum", "writer_faithful": faithful,
-                               "ulp_error": err if err == "n/a" or err <= 2 else "big"}, wit)
+                               "ulp_error": err if err == "n/a" or err <= 2 else "big",
+                               "range": "below-1e-300" if (not isnan and abs(x) < 1e-300) else "ordinary"}, wit)
             # (X) the library reader agrees with the native one; the library writers print the same text
             nX += 1
             if vl != vn:
@@ -664,7 +665,7 @@ CONTEXTS = [("top", "%s"), ("list", "(a %s b)"), ("vector", "#(1 %s)"), ("quoted
 def spellings(rng):
     """valid R7RS spellings: (feature, text)"""
     n = rng.randrange(2, 900)
-    f = rng.choice(("5", "25", "125", "75"))
+    f = rng.choice(("5", "25", "3", "12"))
     w2, w3, w4 = chr(rng.randrange(0xa1, 0x7ff)), chr(rng.randrange(0x3041, 0x3090)), chr(rng.randrange(0x10000, 0x10ffff))
     return [
         ("float-leading-dot", ".%s" % f), ("float-neg-leading-dot", "-.%s" % f), ("float-trailing-dot", "%d." % n),
@@ -849,6 +850,7 @@ def first_difference(a, b):
     if ka == "f" and not isinstance(b, Node) and b[0] == "f" and "nan" not in (a[1], b[1]):
         u = ulp_distance(a[1], b[1])
         d["ulp_error"] = u if u <= 2 else "big"
+        d["range"] = "below-1e-300" if abs(b2f(a[1])) < 1e-300 else "ordinary"
     elif not isinstance(b, Node) and not isinstance(a, Node) and b[0] != a[0]:
         d["became"] = KINDNAME.get(b[0], b[0])
     elif isinstance(b, Node) != isinstance(a, Node):
@@ -1082,7 +1084,9 @@ def judge_x2(rep, case, res, counters):
 
 
 # ------------------------------------------------------------------------------------------------ char sweep (inside chibi)
-def char_sweep_form(cid, lo, hi):
+def char_sweep_form(cid, lo, hi, stride):
+    """every scalar value: native write -> (W) -> native read; every stride-th one (and all below U+1000) additionally
+    through the library pair, the cross pairs, and embedded in a string and in a symbol"""
     return r"""(%%case* %s (flush-output-port)
  (let lp ((cp %d) (n 0) (bad 0) (shown '()))
    (cond
@@ -1090,23 +1094,27 @@ def char_sweep_form(cid, lo, hi):
     ((and (>= cp #xD800) (<= cp #xDFFF)) (lp #xE000 n bad shown))
     (else
      (let* ((c (integer->char cp))
-            (s (string #\a c #\b))
-            (y (string->symbol s))
-            (t1 (w->s native-write c)) (t2 (w->s write c))
-            (ts1 (w->s native-write s)) (ts2 (w->s write s))
-            (ty1 (w->s native-write y)) (ty2 (w->s write y))
-            (flags (list (char-text-ok? t1 cp) (eqv? (rd1 native-read t1) c) (eqv? (rd1 read t1) c)
-                         (char-text-ok? t2 cp) (eqv? (rd1 read t2) c) (eqv? (rd1 native-read t2) c)
-                         (equal? (rd1 native-read ts1) s) (equal? (rd1 read ts1) s)
-                         (equal? (rd1 read ts2) s) (equal? (rd1 native-read ts2) s)
-                         (eq? (rd1 native-read ty1) y) (eq? (rd1 read ty1) y)
-                         (eq? (rd1 read ty2) y) (eq? (rd1 native-read ty2) y)))
+            (full (or (< cp #x1000) (= 0 (modulo cp %d))))
+            (t1 (w->s native-write c))
+            (flags (if (not full)
+                       (list (char-text-ok? t1 cp) (eqv? (rd1 native-read t1) c) #t #t #t #t #t #t #t #t #t #t #t #t)
+                       (let* ((s (string #\a c #\b))
+                              (y (string->symbol s))
+                              (t2 (w->s write c))
+                              (ts1 (w->s native-write s)) (ts2 (w->s write s))
+                              (ty1 (w->s native-write y)) (ty2 (w->s write y)))
+                         (list (char-text-ok? t1 cp) (eqv? (rd1 native-read t1) c) (eqv? (rd1 read t1) c)
+                               (char-text-ok? t2 cp) (eqv? (rd1 read t2) c) (eqv? (rd1 native-read t2) c)
+                               (equal? (rd1 native-read ts1) s) (equal? (rd1 read ts1) s)
+                               (equal? (rd1 read ts2) s) (equal? (rd1 native-read ts2) s)
+                               (eq? (rd1 native-read ty1) y) (eq? (rd1 read ty1) y)
+                               (eq? (rd1 read ty2) y) (eq? (rd1 native-read ty2) y)))))
             (ok (not (memq #f flags))))
        ;; print the first failure of every distinct flag pattern (at most 6 patterns per range)
        (if (and (not ok) (not (member flags shown)) (< (length shown) 6))
-           (%%obs (list 'fail cp flags (cps t1) (cps t2) (cps ts1) (cps ts2) (cps ty1) (cps ty2))))
+           (%%obs (list 'fail cp flags (cps t1))))
        (lp (+ cp 1) (+ n 1) (if ok bad (+ bad 1))
-           (if (and (not ok) (not (member flags shown)) (< (length shown) 6)) (cons flags shown) shown)))))))""" % (cid, lo, hi)
+           (if (and (not ok) (not (member flags shown)) (< (length shown) 6)) (cons flags shown) shown)))))))""" % (cid, lo, hi, stride)
 
 
 SWEEP_HEADER = r"""
@@ -1147,7 +1155,9 @@ def cp_class(cp):
 def run_char_sweep(rep, b, tier, env, counters):
     cuts = [0, 0x100, 0x800, 0x4000, 0x10000, 0x30000, 0x60000, 0x90000, 0xC0000, 0xE0000, 0x110000]
     sw = [("cw%d" % i, cuts[i], cuts[i + 1]) for i in range(len(cuts) - 1)]
-    res, procs = C.run_batches(b, IMPORTS, HEADER + SWEEP_HEADER, [(c, char_sweep_form(c, lo, hi)) for c, lo, hi in sw],
+    stride = 64 if tier == "quick" else 1
+    rep.extra["sweep_full_stride"] = stride
+    res, procs = C.run_batches(b, IMPORTS, HEADER + SWEEP_HEADER, [(c, char_sweep_form(c, lo, hi, stride)) for c, lo, hi in sw],
                                batch=1, env_extra=env, timeout=600, heap="32M/256M")
     swept = 0
     for cid, lo, hi in sw:
@@ -1174,9 +1184,9 @@ def run_char_sweep(rep, b, tier, env, counters):
                 continue
             o = parse_all(l)[0]
             cp, flags = o[1], o[2]
-            texts = [text_of(x) for x in o[3:9]]
-            w = {"cp": hex(cp), "native/lib text of the char": texts[0:2], "of the string a<c>b": texts[2:4],
-                 "of the symbol a<c>b": texts[4:6], "flags": flags}
+            w = {"cp": hex(cp), "native text of the char": text_of(o[3]), "flags": flags,
+                 "flag order": "char: W/R/X(lib reads native text), lib W/R, X(native reads lib text); string a<c>b: R native, X, "
+                               "R lib, X; symbol a<c>b likewise"}
             for (chk, kind, pair), fl in zip(FLAGS, flags):
                 if fl is True:
                     continue
@@ -1193,13 +1203,18 @@ def run_char_sweep(rep, b, tier, env, counters):
             swept += n
             rep.count("char_sweep_failures", int(mm.group(2)))
     rep.extra["scalar_values_swept"] = swept
-    counters["W"] += 3 * swept
-    counters["R"] += 3 * swept
-    counters["X"] += 3 * swept
+    counters["W"] += swept
+    counters["R"] += swept
+    counters["X"] += swept // stride
     return procs
 
 
 # ------------------------------------------------------------------------------------------------ check
+def _unknown(rep):
+    kf, _ = RP.load_findings(rep.prop)
+    return sum(1 for sig, _w in rep.violations if not any(RP._match(f["match"], sig) for f in kf))
+
+
 def check(rep, tier, seed):
     rng = random.Random(seed * 7919 + 8)
     b = B.ensure("hooks")
@@ -1213,9 +1228,9 @@ def check(rep, tier, seed):
 
     g = DataGen(rng)
     cases = []
-    n_leaf = 6000 if quick else 60000
-    n_tree = 5000 if quick else 100000
-    n_graph = 2500 if quick else 40000
+    n_leaf = 4000 if quick else 60000
+    n_tree = 2500 if quick else 100000
+    n_graph = 1500 if quick else 40000
     n_text = 0 if quick else 100000          # random mutations of python-printed texts: thorough tier only
     for i in range(n_leaf):
         kind = ("str", "sym", "char", "big", "ratio", "cpx", "flo", "bv")[i % 8]
@@ -1251,24 +1266,43 @@ def check(rep, tier, seed):
         k += 1
         cases.append({"id": cid, "fam": "x2", "text": t, "origin": "mutated", "name": feature_of(t), "context": "-",
                       "form": "(%%case* %s (flush-output-port) (x2 %s))" % (cid, " ".join(str(ord(c)) for c in t))})
-    res, ps = C.run_batches(b, IMPORTS, HEADER, [(c["id"], c["form"]) for c in cases], batch=250, env_extra=env,
-                            timeout=60, heap="32M/256M")
-    procs += ps
+    # interleave the families and run in chunks (a small one first): a badly broken tree (writer loops, crashes) stops early
+    fams = {}
     for c in cases:
-        r = res.get(c["id"])
-        if c["fam"] == "rt":
-            judge_rt(rep, c, r, counters)
-        elif c["fam"] == "rtg":
-            judge_rtg(rep, c, r, counters)
-        else:
-            judge_x2(rep, c, r, counters)
+        fams.setdefault(c["id"][0], []).append(c)
+    order = []
+    for i in range(max(len(v) for v in fams.values())):
+        for v in fams.values():
+            if i < len(v):
+                order.append(v[i])
+    res = {}
+    bounds = [0, 400] + list(range(3400, len(order), 3000)) + [len(order)]
+    for c0, c1 in zip(bounds, bounds[1:]):
+        if c1 <= c0:
+            continue
+        r1, ps = C.run_batches(b, IMPORTS, HEADER, [(c["id"], c["form"]) for c in order[c0:c1]], batch=40 if c0 == 0 else 150,
+                               env_extra=env, timeout=30, heap="32M/256M")
+        res.update(r1)
+        procs += ps
+        for c in order[c0:c1]:
+            r = r1.get(c["id"])
+            if c["fam"] == "rt":
+                judge_rt(rep, c, r, counters)
+            elif c["fam"] == "rtg":
+                judge_rtg(rep, c, r, counters)
+            else:
+                judge_x2(rep, c, r, counters)
+        if _unknown(rep) >= 60:
+            rep.extra["stopped_early"] = "after %d of %d data cases: %d unexplained violations" % (c1, len(order), _unknown(rep))
+            break
     if "__ghost__" in res:
         rep.violation({"kind": "ghost-output"}, {"text": res["__ghost__"].text})
     for c in cases[:3] + cases[n_leaf:n_leaf + 2] + cases[n_leaf + n_tree:n_leaf + n_tree + 2]:
         r = res.get(c["id"])
         rep.sample({"form": c["form"][:600], "expected": RD.show(c["model"])[:300], "observed": r.text.strip()[:400] if r else None})
 
-    procs += run_char_sweep(rep, b, tier, env, counters)
+    if "stopped_early" not in rep.extra:
+        procs += run_char_sweep(rep, b, tier, env, counters)
 
     for k, v in counters.items():
         rep.count(k + "_checks" if k in ("W", "R", "X") else k, v)
